@@ -4,6 +4,7 @@
 import Proofs.StreamTamper
 import Proofs.ToyPrims
 import Props.C12
+import Proofs.FileTamper
 namespace AgeModel
 namespace Props.C02
 open Stream
@@ -43,6 +44,54 @@ theorem tampered_never_eof (A : AEAD) (hA : A.Correct) (C : Nat) (hC : 0 < C) (k
   have : decrypt A C k c' = (pt, .eof) := by
     rw [← h, ← he]
   exact hne (accepts_only_own_chunking A hA C hC k c' pt this)
+
+/-! ## whole files: "the bytes after the header are changed in any way" -/
+
+/-- **A file cut inside the payload nonce yields no reader.** -/
+theorem file_cut_in_nonce (P : Prims) (hP : P.Correct) (fk : Bytes) (stanzas : List Format.Stanza) (rest : Bytes)
+    (hwf : ∀ s ∈ stanzas, s.WF) (hfk : fk ≠ []) (pre post : List Identity) (id : Identity)
+    (hpre : ∀ i ∈ pre, i.unwrap P stanzas = .incorrect) (hid : id.unwrap P stanzas = .key fk)
+    (hshort : rest.length < streamNonceSize) (C : Nat) :
+    decryptFile P C (pre ++ id :: post) (headerBytes P fk stanzas ++ rest) = .error .nonce := by
+  unfold decryptFile
+  rw [decryptInit_header_rest P hP fk stanzas rest hwf hfk pre post id hpre hid]
+  simp [hshort]
+
+/-- **Whole-file tamper theorem (reduction form).** Take the honest file
+    `specFile … nonce pt` and replace everything after the nonce by ANY bytes `c'`.
+    Every identity list that opens the header gets exactly what the STREAM layer
+    makes of `c'` under the honest payload key; so, if no AEAD forgery is exhibited
+    (every pair the reader opens is one that was sealed for `pt`), the bytes
+    released are a prefix of `pt`, a clean end of stream comes only with all of
+    `pt`, and a `c'` that differs from the honest payload never reaches a clean end. -/
+theorem file_payload_tamper (P : Prims) (hP : P.Correct) (C : Nat) (hC : 0 < C)
+    (fk nonce pt c' : Bytes) (stanzas : List Format.Stanza)
+    (hwf : ∀ s ∈ stanzas, s.WF) (hfk : fk ≠ []) (hn : nonce.length = streamNonceSize)
+    (pre post : List Identity) (id : Identity)
+    (hpre : ∀ i ∈ pre, i.unwrap P stanzas = .incorrect) (hid : id.unwrap P stanzas = .key fk)
+    (hlen : c'.length + 2 < 2 ^ 88) (hlenp : pt.length + 2 < 2 ^ 88)
+    (hno : ∀ x ∈ openedFrom P.aead C (streamKey P fk nonce) 0 c' (c'.length + 1), x ∈ sealedFrom C 0 pt (pt.length + 1)) :
+    ∃ out o, decryptFile P C (pre ++ id :: post) (headerBytes P fk stanzas ++ (nonce ++ c')) = .ok (out, o) ∧
+      out <+: pt ∧ (o = .eof → out = pt) ∧
+      (c' ≠ Stream.encrypt P.aead C (streamKey P fk nonce) pt → o ≠ .eof) := by
+  have hrest : ¬ (nonce ++ c').length < streamNonceSize := by rw [List.length_append]; omega
+  have h1 : (nonce ++ c').take streamNonceSize = nonce := by
+    rw [List.take_append_of_le_length (by omega)]; exact List.take_of_length_le (by omega)
+  have h2 : (nonce ++ c').drop streamNonceSize = c' := by
+    rw [List.drop_append_of_le_length (by omega)]
+    have : List.drop streamNonceSize nonce = [] := List.drop_of_length_le (by omega)
+    simp [this]
+  refine ⟨(decrypt P.aead C (streamKey P fk nonce) c').1, (decrypt P.aead C (streamKey P fk nonce) c').2, ?_, ?_⟩
+  · unfold decryptFile
+    rw [decryptInit_header_rest P hP fk stanzas _ hwf hfk pre post id hpre hid]
+    simp only [hrest, if_false, h1, h2]
+  · have ht := tamper_prefix P.aead C hC (streamKey P fk nonce) pt c' hlen hlenp hno
+    exact ⟨ht.1, ht.2, fun hne => tampered_never_eof P.aead hP.aead C hC (streamKey P fk nonce) pt c' hne hlen hlenp hno⟩
+
+/-- the honest file is `headerBytes ++ nonce ++ payload`: the theorem above is about its tamperings -/
+theorem honest_file_shape (P : Prims) (C : Nat) (fk nonce pt : Bytes) (stanzas : List Format.Stanza) :
+    specFile P C fk stanzas nonce pt = headerBytes P fk stanzas ++ (nonce ++ Stream.encrypt P.aead C (streamKey P fk nonce) pt) :=
+  specFile_eq_header P C fk nonce pt stanzas
 
 /-- no (key, nonce) pair is used twice within a payload: the counter/flag encoding is injective -/
 theorem nonce_injective (i j : Nat) (f g : Bool) (hi : i < 2 ^ 88) (hj : j < 2 ^ 88) (h : nonce i f = nonce j g) :
